@@ -269,6 +269,12 @@ def run(chk):
                     "semantics as modelled in coq/theories/PolyGen.v",
                     "extraction: ExtrOcamlBasic, ExtrOcamlNatInt (nat -> OCaml int; indices and lengths < 100 here); Z and Q stay inductive",
                     "ocaml/driver_c05.ml, harness/h_c05.cpp (RPN interpreters), Python comparison with exact fractions"]
+    chk.trusted += ["the vector form getMatrixElement(bra, ket, states) is modelled by hand (coq/theories/PolyVec.v: linear search for the image state, "
+                    "terms with |ket_i| <= eps skipped, absent image states contribute 0; theorem vector_form_unit_vectors: unit vectors over pairwise "
+                    "different states in any order give the pair form; vector_form_binary_search_refuted: a search that presupposes an ascending list does "
+                    "not); it is not translated from the source: the tie is the GMEVEC comparison of h_c05 on every run (implementation's vector form on "
+                    "unit vectors over ascending / descending / scrambled lists and scrambled subsets == implementation's pair form, which is compared "
+                    "with the extracted polynomial model)"]
     chk.assume += ["coefficients are small dyadic rationals, for which the C++ threshold |c| < 100*eps coincides with the model's exact zero test",
                    "indices are < the size of the Fock state (beyond that boost::dynamic_bitset is undefined behaviour; excluded by C20)",
                    "real build (MelemType = double); the complex build shares the code path"]
